@@ -141,7 +141,9 @@ def c07(tier, seed):
     c, d, s = apiprops.run_api(chk, "C07", sweep_v, extra_args=["--sub", "sweep"])
     _acc(C, c); _acc(D, d)
     # production refill size and the 2^32-bit counter: optimised build, no size override
-    c2, d2, s2 = apiprops.run_api(chk, "C07", [(None, None)], san="fast", extra_args=["--sub", "large"], stall_s=120.0)
+    # one case is one whole message: 2^29 bytes take seconds, the thorough 4 GiB stream takes minutes of CPU
+    c2, d2, s2 = apiprops.run_api(chk, "C07", [(None, None)], san="fast", extra_args=["--sub", "large"],
+                                  stall_s=120.0 if tier == "quick" else 1500.0)
     _acc(C, c2); _acc(D, d2)
     extra = dict(counters=C, distinct_by_kind=D, residues_mod_64_covered=D.get("residue", 0),
                  refill_variants=["%dB" % (h * 64) for _, h in sweep_v] + ["32MiB (production)"])
